@@ -200,6 +200,9 @@ func (p c16) Gen(c *run.Ctx, idx int) (json.RawMessage, error) {
 	if r.Intn(3) == 0 {
 		cs.Cfg.Merger = "sanitize"
 	}
+	if idx%3 == 1 {
+		cs.Cfg.Planner, cs.Cfg.TTLms = "cached", 3600000
+	}
 	switch k := idx % o; {
 	case k == 0:
 		cs.Kind, cs.Op = "standard", gen.Op{Query: stdIntrospection, OperationName: "IntrospectionQuery"}
@@ -209,6 +212,8 @@ func (p c16) Gen(c *run.Ctx, idx int) (json.RawMessage, error) {
 		cs.Kind, cs.Op = "rebuild", gen.Op{Query: stdIntrospection}
 	case k == 3:
 		cs.Kind = "probe"
+	case k == 4:
+		cs.Kind, cs.Cfg.Merger = "probe", "sanitize" // the node-hiding merger: reported and enforced root fields must still agree
 	default:
 		cs.Kind = "generated"
 		op := genIntrospectionOp(r, cu.mono)
@@ -370,6 +375,25 @@ func (p c16) Exec(c *run.Ctx, idx int, raw json.RawMessage) []run.Result {
 		res.Counters["reference_errors"] = 1
 		res.Message = ref.Errors[0].Message
 		return []run.Result{res}
+	}
+	if sp.Cfg.Planner == "cached" && len(sp.Op.Variables) > 0 {
+		// through the plan cache: the same document was answered before with other variable values
+		// (booleans flipped, type names rotated); the answer below must not remember them
+		warm := sp.Op
+		nv := map[string]any{}
+		for k, v := range sp.Op.Variables {
+			switch x := v.(type) {
+			case bool:
+				nv[k] = !x
+			case string:
+				nv[k] = "Query"
+			default:
+				nv[k] = v
+			}
+		}
+		warm.Variables = nv
+		r.Query(&warm)
+		res.Counters["warmed_with_other_variable_values"] = 1
 	}
 	hr := r.Query(&sp.Op)
 	if hr.Panic != nil {
